@@ -472,6 +472,8 @@ func cacheSx(c kcache.CacheReader) string {
 }
 
 func (w *treeWorld) observe() {
+	// the monitors first: what a handler was given is judged before (and whether or not) the listing of the cache
+	// it came from is
 	for _, n := range w.nodes {
 		if n.kind == "mon" {
 			n.mlog.mu.Lock()
@@ -485,6 +487,10 @@ func (w *treeWorld) observe() {
 			early, inits, nilInit := n.mlog.early, n.mlog.inits, n.mlog.nilInit
 			n.mlog.mu.Unlock()
 			w.tr.line(kv.L("monobs", fmt.Sprint(n.id), kv.Bool(isClosed(n.done)), init, log, fmt.Sprint(early), fmt.Sprint(inits), kv.Bool(nilInit)))
+		}
+	}
+	for _, n := range w.nodes {
+		if n.kind == "mon" {
 			continue
 		}
 		evs := "none"
@@ -633,6 +639,10 @@ func runTreeScenario(t *testing.T, tr *tracer, idx int, seed uint64, mode string
 		modes := strings.Split(mode, ",")
 		mode = modes[r.Intn(len(modes))]
 		w := &treeWorld{tr: tr, r: r, srv: kv.NewServer(), perturb: r.Chance(2, 3), mode: mode}
+		if r.Chance(1, 8) {
+			// a long-lived cluster: resource versions beyond 32 bits
+			w.srv.StartAt(1<<31 + r.Intn(1000))
+		}
 		w.ctx, w.cancel = context.WithCancel(context.Background())
 		tr.line(kv.L("scenario", fmt.Sprint(idx), mode))
 		if mode == "c07" {
